@@ -127,6 +127,7 @@ def run(prop, tier, seed):
     real_engine(v, prop, d, drv, seed, tier)
     if prop == "C13":
         stop_stop(v, d, drv, seed)
+        stop_at_popped(v, d, drv, seed, tier)
         burst(v, d, drv, seed, tier)
         start_stop_start(v, d, drv, seed)
         concurrent(v, d, drv, seed, tier)
@@ -286,6 +287,30 @@ def stop_stop(v, d, drv, seed):
                        "StopWS of the plotting space together with a keeper stop (real plot engine): %s; workspace stop=%s, keeper stop=%s" % (
                            what, e.get("stop_space"), e.get("stop_keeper")), dict(scenario=s_, event=e, output=note[-1500:]))
     v.cov["stop_stop"] = res
+
+
+def stop_at_popped(v, d, drv, seed, tier):
+    """informational (C13 asks that stopping the keeper terminates; it does, but when): the keeper is stopped after the
+    plotter has popped a request and before the plot has begun.  The plotter's monitor asks the engine to stop a plot
+    that may not have started yet; if it has not, nothing stops the plot that starts right afterwards and Stop waits
+    for its end.  Counted on the real engine, reported as a note."""
+    n = 40 if tier == "quick" else 400
+    sc = [dict(sc=9300 + i, seed=seed * 131 + i, steps=[], opt=dict(mode="stopatpopped", realdb=True, spaces=3, init={})) for i in range(n)]
+    sf, tf = os.path.join(d, "sp.json"), os.path.join(d, "sp.ndjson")
+    json.dump(sc, open(sf, "w"))
+    vlib.run_driver(drv, sf, tf, ["-workers", "8", "-stall", "60"], timeout=600)
+    ran, hung, tot = 0, 0, 0
+    for t in vlib.read_traces(tf):
+        for e in t["ev"]:
+            if e.get("a") == "StopAtPopped" and e.get("res") == "ok":
+                tot += 1
+                ran += 1 if e.get("plotted_to_the_end") else 0
+                hung += 1 if e.get("stop") != "ok" else 0
+    v.cov["stop_at_popped"] = dict(runs=tot, plot_ran_to_its_end_despite_stop=ran, stop_did_not_return=hung)
+    if ran:
+        log("NOTE keeper stop between pop and plot start: in %d of %d runs the plot was run to its end and Stop waited for it" % (ran, tot))
+    if hung:
+        v.classify(dict(cause="stop_at_popped", tag="C13-stop-at-popped-hangs"), "keeper stop issued between the plotter's pop and the start of the plot did not return in %d of %d runs" % (hung, tot), dict(scenario=sc[0]))
 
 
 def concurrent(v, d, drv, seed, tier, only=None, drvname="keeperdrv"):
